@@ -9,6 +9,7 @@ import WinterProofs.Lemmas.C16Model
 import WinterProofs.Lemmas.C16Interp
 import WinterProofs.Lemmas.C16Prep
 import WinterProofs.Lemmas.C16Group
+import WinterProofs.Lemmas.C16Gen
 
 namespace WinterProofs.C16
 open Model.Divisor WinterProofs.C16L Polynomial
@@ -712,5 +713,32 @@ example : ∃ groups, groupConstraints (fieldOps (ZMod 17) (fun _ => some 2))
       rcases ha with rfl | rfl
       · exact (validateTraceLength_accepts_iff _ _).mpr ⟨⟨3, rfl⟩, by decide⟩
       · exact (validateTraceLength_accepts_iff _ _).mpr ⟨⟨3, rfl⟩, by decide⟩)
+
+/-! ## tie T: the divisor code as regenerated from air/src/air/divisor.rs on this run
+
+`Gen.Divisor.*` (Winter/Gen/Divisor.lean) is what translate/gen.py makes of `get_trace_domain_value_at`,
+`ConstraintDivisor::new`, `from_transition`, `evaluate_exemptions_at` and `evaluate_at` on every run.  For EVERY
+operations record of the model and all arguments the regenerated definitions are the model functions the
+theorems above are about (not translated: `from_assertion`, `degree`). -/
+
+/-- ★ `from_transition(n, e)`: numerator `[(n, 1)]` and the exemption points `g^(n-e) … g^(n-1)`; the model's
+    `ok d` exactly when the regenerated no-panic condition holds (`e ≤ n`; every `get_trace_domain_value_at`
+    call inside its assertions) and the regenerated constructor returns the two vectors of `d` -/
+theorem gen_from_transition_eq_model {α : Type} (O : Ops α) (n e : Nat) (d : Divisor α) :
+    fromTransition O n e = .ok d ↔
+      (Gen.Divisor.from_transition_ok O.toX n e = true ∧
+        Gen.Divisor.from_transition O.toX n e = (d.numerator, d.exemptions)) :=
+  C16G.gen_from_transition O n e d
+
+/-- ★ `get_trace_domain_value_at`, `evaluate_exemptions_at`, `evaluate_at` -/
+theorem gen_divisor_eval_eq_model {α : Type} (O : Ops α) (n step : Nat) (v : α) (d : Divisor α) (x : α) :
+    (traceDomainValueAt O n step = .ok v ↔
+      (Gen.Divisor.get_trace_domain_value_at_ok O.toX n step = true ∧
+        Gen.Divisor.get_trace_domain_value_at O.toX n step = v)) ∧
+    Gen.Divisor.evaluate_exemptions_at O.toX d.exemptions x = d.evalExemptions O x ∧
+    (d.evalAt O x).getD O.zero = Gen.Divisor.evaluate_at O.toX d.exemptions d.numerator x ∧
+    Gen.Divisor.evaluate_at_ok O.toX d.exemptions d.numerator x = true :=
+  ⟨C16G.gen_trace_domain_value_at O n step v, (C16G.gen_evaluate_exemptions_at O d x).1,
+    (C16G.gen_evaluate_at O d x).1, (C16G.gen_evaluate_at O d x).2⟩
 
 end WinterProofs.C16
